@@ -264,7 +264,11 @@ class CallListerVisitor(ast.NodeVisitor):
                 return ret.get_untainted()
             return ret
         finally:
-            if not isinstance(name, Unknown) and not (ro and isinstance(name, ast.Name)):
+            if not (
+                    isinstance(name, (Unknown, ast.Attribute))
+                    or (ro and isinstance(name, ast.Name))):
+                # (what an attribute is taken from was visited while
+                # resolving it)
                 self.visit(name)
 
     def rebind(self, name, node):
@@ -334,8 +338,8 @@ class CallListerVisitor(ast.NodeVisitor):
             ns[node.id] = Unknown(node)
 
     def visit_Attribute(self, node):
-        if not isinstance(node.value, (ast.Name, ast.Attribute)):
-            # eg. func(*args, **kwargs).attribute: the call is to be seen
+        if not isinstance(node.value, ast.Name):
+            # eg. func(*args, **kwargs).real.imag: the call is to be seen
             self.visit(node.value)
 
     def has_hide_starargs(self, found, original):
